@@ -49,6 +49,21 @@ func (env *SpecEnv) evalBool(e Expr) (t Term) {
 	return env.VC().term(v)
 }
 
+// tryEvalBool evaluates a clause, reporting failure instead of recording a contract error.
+func (env *SpecEnv) tryEvalBool(e Expr) (t Term, ok bool) {
+	defer func() {
+		if r := recover(); r != nil {
+			if _, isSpec := r.(specErr); isSpec {
+				t, ok = "true", false
+				return
+			}
+			panic(r)
+		}
+	}()
+	v := env.eval(e)
+	return env.VC().term(v), true
+}
+
 func (env *SpecEnv) VC() *VC {
 	if env.vc != nil {
 		return env.vc
@@ -329,6 +344,9 @@ func (env *SpecEnv) lookup(name string) *Val {
 				return v
 			}
 		}
+	}
+	if gv, ok := vc.P.CS.GhostVars[name]; ok {
+		return &Val{T: env.curHeap().Get(vc.ghostVarHeap(gv)), Typ: vc.ghostVarType(gv)}
 	}
 	// ghost constant (0-ary ghost func)
 	if g, ok := vc.P.CS.Ghosts[name]; ok && len(g.Params) == 0 {
@@ -725,6 +743,18 @@ func (env *SpecEnv) wfRef(r *Val, h *Heap) {
 		b := vc.slice(r).Base
 		vc.S.Assert(or(eq(b, "0"), sel(h.Get("$alloc"), b)))
 	}
+}
+
+func (vc *VC) ghostVarType(gv *GhostField) types.Type {
+	t, err := vc.P.ResolveType(gv.Pkg, gv.GoType)
+	if err != nil {
+		panic(specErr(fmt.Sprintf("ghost var %s: %v", gv.Name, err)))
+	}
+	return t
+}
+
+func (vc *VC) ghostVarHeap(gv *GhostField) string {
+	return vc.regHeap("G|ghost."+gv.Name, vc.sortOf(vc.ghostVarType(gv)))
 }
 
 // ghostFieldPtr locates a declared ghost field of the object v points to.
@@ -1177,6 +1207,11 @@ func (env *SpecEnv) modLocs(e Expr) []modLoc {
 			if p != nil && !p.Obj {
 				return []modLoc{{Heap: p.Heap, Ref: p.Ref}}
 			}
+		}
+	}
+	if id, ok := e.(*Ident); ok {
+		if gv, ok := vc.P.CS.GhostVars[id.Name]; ok {
+			return []modLoc{{Heap: vc.ghostVarHeap(gv), Whole: true}}
 		}
 	}
 	env.fail("modifies: unsupported location %s", e)
